@@ -1,1856 +1,3 @@
-//! C17 — every tree-hash routine computes the same hash.
-//!
-//! Subjects (code under test, all in clvm-utils unless noted):
-//!   tree_hash, tree_hash_cached + TreeCache (fresh, reused, with/without the
-//!   visit_tree pre-pass of run_block_generator2), tree_hash_from_bytes (plain
-//!   and back-reference serialisations), PRECOMPUTED_HASHES / the small-atom
-//!   fast path, tree_hash_atom / tree_hash_pair, the TreeHasher encoder
-//!   (hash_encoder.rs) through ToClvm, curry_tree_hash, CurriedProgram::to_clvm,
-//!   and chia-consensus' private curry_and_treehash observed through the public
-//!   fast_forward_singleton.
-//! Oracle: vcore::model::treehash (sha2 crate, bottom-up over the arena; calls
-//!   nothing under test) and tree-level construction of curried programs.
-//!
-//! Everything in this file that walks a tree is iterative (deep chains of
-//! 50 000 pairs are generated); nothing recurses on tree depth.
-
-use std::sync::OnceLock;
-
-use chia_consensus::error::Error as FfError;
-use chia_consensus::fast_forward::fast_forward_singleton;
-use chia_protocol::{Bytes32, Coin};
-use chia_puzzles::{SINGLETON_TOP_LAYER_V1_1, SINGLETON_TOP_LAYER_V1_1_HASH};
-use clvm_traits::{clvm_curried_args, ClvmEncoder, ToClvm, ToClvmError};
-use clvm_utils::{
-    curry_tree_hash, tree_hash, tree_hash_atom, tree_hash_cached, tree_hash_from_bytes, tree_hash_pair,
-    CurriedProgram, ToTreeHash, TreeCache, TreeHash, TreeHasher, PRECOMPUTED_HASHES,
-};
-use clvmr::allocator::{Allocator, NodePtr, NodeVisitor};
-use clvmr::serde::{node_from_bytes, node_to_bytes_backrefs, node_to_bytes_limit};
-use clvmr::Atom;
-use vcore::engine::{self, CaseResult, Ctx, Property, Source, SubCheck, Tier};
-use vcore::gentree::{self, gen_atom, gen_tree, BuildMode, TNode, Tid, Tree};
-use vcore::model::treehash as mth;
-use vcore::{vensure, vfail, Fnv, Src};
-
-type H = [u8; 32];
-
-/// plain (non-memoizing, non-back-referencing) routines are only run when the
-/// *expanded* tree stays below this many nodes (they are exponential on DAGs
-/// by design; that is not what the property is about)
-const EXPANDED_LIMIT: u64 = 60_000;
-/// ... and its plain serialisation below this many bytes
-const SERIALIZED_LIMIT: u64 = 1_900_000;
-/// clvmr's back-reference serialiser is only asked to serialise trees with at
-/// most this many distinct pair nodes
-const BACKREFS_MAX_PAIRS: u32 = 256;
-
-fn hx(b: &[u8]) -> String {
-    let mut s = String::with_capacity(b.len() * 2);
-    for x in b {
-        s.push_str(&format!("{x:02x}"));
-    }
-    if s.is_empty() {
-        s.push_str("<empty>");
-    }
-    s
-}
-
-fn th(h: &TreeHash) -> H {
-    h.to_bytes()
-}
-
-// --------------------------------------------------------------------------
-// atom representations (superset of gentree's BuildMode.atoms)
-
-/// 0 new_atom; 1 new_small_number where the bytes are a canonical small
-/// number; 2 new_substr of a larger heap buffer; 3 new_concat (two halves; for
-/// atoms shorter than 2 bytes the concat of an *empty heap atom* and the atom,
-/// which is heap-backed too); 4 new_substr of a small-number node (an inline
-/// small atom reached through another constructor) where possible
-const N_ATOM_MODES: usize = 5;
-
-fn canonical_small(b: &[u8]) -> Option<u32> {
-    clvmr::allocator::fits_in_small_atom(b)
-}
-
-fn mk_atom(a: &mut Allocator, b: &[u8], mode: u8) -> NodePtr {
-    match mode {
-        1 => {
-            if let Some(v) = canonical_small(b) {
-                return a.new_small_number(v).expect("new_small_number");
-            }
-            a.new_atom(b).expect("new_atom")
-        }
-        2 => {
-            let mut buf = Vec::with_capacity(b.len() + 7);
-            buf.extend_from_slice(&[0x5a, 0xa5]);
-            buf.extend_from_slice(b);
-            buf.extend_from_slice(&[0x3c; 5]);
-            let big = a.new_atom(&buf).expect("new_atom");
-            a.new_substr(big, 2, 2 + b.len() as u32).expect("new_substr")
-        }
-        3 => {
-            if b.len() >= 2 {
-                let mid = b.len() / 2;
-                let l = a.new_atom(&b[..mid]).expect("new_atom");
-                let r = a.new_atom(&b[mid..]).expect("new_atom");
-                a.new_concat(b.len(), &[l, r]).expect("new_concat")
-            } else {
-                let big = a.new_atom(&[0xa5; 6]).expect("new_atom");
-                let empty_heap = a.new_substr(big, 3, 3).expect("new_substr");
-                let x = a.new_atom(b).expect("new_atom");
-                a.new_concat(b.len(), &[empty_heap, x]).expect("new_concat")
-            }
-        }
-        4 => {
-            if let Some(v) = canonical_small(b) {
-                if b.len() <= 3 {
-                    let w = (1u32 << (8 * b.len() as u32)) | v;
-                    let wn = a.new_small_number(w).expect("new_small_number");
-                    return a.new_substr(wn, 1, 1 + b.len() as u32).expect("new_substr");
-                }
-            }
-            a.new_atom(b).expect("new_atom")
-        }
-        _ => a.new_atom(b).expect("new_atom"),
-    }
-}
-
-// --------------------------------------------------------------------------
-// incremental builder: one arena, one allocator, several roots; a node of an
-// earlier tree that is reused by a later tree is the *same* NodePtr
-
-/// what a build did (for labels)
-#[derive(Default, Clone, Copy)]
-struct BuildInfo {
-    /// pairs of earlier builds that were linked into this one
-    imported_pairs: u32,
-    new_pairs: u32,
-}
-
-/// Build `root`. `map[id]` is the (first) NodePtr of arena node `id`.
-/// share = true: every arena node is one allocator node. share = false: nodes
-/// with id >= floor are built once per occurrence; nodes below `floor` that
-/// were built before are linked (not copied).
-fn build_inc(
-    a: &mut Allocator,
-    t: &Tree,
-    root: Tid,
-    share: bool,
-    amode: u8,
-    floor: Tid,
-    map: &mut Vec<Option<NodePtr>>,
-) -> (NodePtr, BuildInfo) {
-    let mut info = BuildInfo::default();
-    if map.len() < t.nodes.len() {
-        map.resize(t.nodes.len(), None);
-    }
-    let share = share || t.expanded_size(root) > 20_000;
-    if share {
-        let n = root as usize + 1;
-        let mut reach = vec![false; n];
-        reach[root as usize] = true;
-        for i in (0..n).rev() {
-            if !reach[i] {
-                continue;
-            }
-            if map[i].is_some() {
-                if matches!(t.nodes[i], TNode::Pair(..)) {
-                    info.imported_pairs += 1;
-                }
-                continue; // do not descend below an existing node
-            }
-            if let TNode::Pair(l, r) = &t.nodes[i] {
-                reach[*l as usize] = true;
-                reach[*r as usize] = true;
-            }
-        }
-        for i in 0..n {
-            if !reach[i] || map[i].is_some() {
-                continue;
-            }
-            let node = match &t.nodes[i] {
-                TNode::Atom(b) => mk_atom(a, b, amode),
-                TNode::Pair(l, r) => {
-                    info.new_pairs += 1;
-                    a.new_pair(map[*l as usize].unwrap(), map[*r as usize].unwrap()).expect("new_pair")
-                }
-            };
-            map[i] = Some(node);
-        }
-        (map[root as usize].unwrap(), info)
-    } else {
-        enum Op {
-            Visit(Tid),
-            Build(Tid),
-        }
-        let mut ops = vec![Op::Visit(root)];
-        let mut vals: Vec<NodePtr> = vec![];
-        while let Some(op) = ops.pop() {
-            match op {
-                Op::Visit(id) => {
-                    if id < floor {
-                        if let Some(n) = map[id as usize] {
-                            if matches!(t.nodes[id as usize], TNode::Pair(..)) {
-                                info.imported_pairs += 1;
-                            }
-                            vals.push(n);
-                            continue;
-                        }
-                    }
-                    match &t.nodes[id as usize] {
-                        TNode::Atom(b) => {
-                            let n = mk_atom(a, b, amode);
-                            if map[id as usize].is_none() {
-                                map[id as usize] = Some(n);
-                            }
-                            vals.push(n);
-                        }
-                        TNode::Pair(l, r) => {
-                            ops.push(Op::Build(id));
-                            ops.push(Op::Visit(*r));
-                            ops.push(Op::Visit(*l));
-                        }
-                    }
-                }
-                Op::Build(id) => {
-                    let r = vals.pop().unwrap();
-                    let l = vals.pop().unwrap();
-                    let n = a.new_pair(l, r).expect("new_pair");
-                    info.new_pairs += 1;
-                    if map[id as usize].is_none() {
-                        map[id as usize] = Some(n);
-                    }
-                    vals.push(n);
-                }
-            }
-        }
-        (vals.pop().unwrap(), info)
-    }
-}
-
-/// length of the plain serialisation of the expanded tree (saturating)
-fn serialized_len(t: &Tree, root: Tid) -> u64 {
-    let mut sz = vec![0u64; root as usize + 1];
-    for i in 0..=root as usize {
-        sz[i] = match &t.nodes[i] {
-            TNode::Atom(b) => {
-                let mut v = vec![];
-                if b.len() < 64 {
-                    gentree::write_atom(&mut v, b);
-                    v.len() as u64
-                } else {
-                    b.len() as u64 + 6
-                }
-            }
-            TNode::Pair(l, r) => 1u64.saturating_add(sz[*l as usize]).saturating_add(sz[*r as usize]),
-        };
-    }
-    sz[root as usize]
-}
-
-/// extend `hashes` so that it covers every arena node (reference model)
-fn extend_hashes(t: &Tree, hashes: &mut Vec<H>) {
-    for i in hashes.len()..t.nodes.len() {
-        let h = match &t.nodes[i] {
-            TNode::Atom(b) => mth::hash_atom(b),
-            TNode::Pair(l, r) => mth::hash_pair(&hashes[*l as usize], &hashes[*r as usize]),
-        };
-        hashes.push(h);
-    }
-}
-
-// --------------------------------------------------------------------------
-// observations on the allocator (all iterative)
-
-#[derive(Default)]
-struct Observed {
-    /// a canonical small integer 0..23 (or the empty atom) stored as a heap buffer
-    small_heap: bool,
-    /// ... stored inline (NodeVisitor::U32)
-    small_inline: bool,
-    empty_heap: bool,
-    /// some pair NodePtr is reached through more than one path
-    pair_reached_twice: bool,
-    /// pairs for which the cache holds a memoized hash
-    memoized: u32,
-    pairs: u32,
-}
-
-fn observe(a: &Allocator, root: NodePtr, cache: Option<&TreeCache>) -> Observed {
-    let mut o = Observed::default();
-    let mut seen = vec![0u8; a.pair_count() + 1];
-    let mut stack = vec![root];
-    while let Some(n) = stack.pop() {
-        match a.node(n) {
-            NodeVisitor::Buffer(b) => {
-                if b.is_empty() {
-                    o.empty_heap = true;
-                    o.small_heap = true;
-                } else if matches!(canonical_small(b), Some(v) if v < 24) {
-                    o.small_heap = true;
-                }
-            }
-            NodeVisitor::U32(v) => {
-                if v < 24 {
-                    o.small_inline = true;
-                }
-            }
-            NodeVisitor::Pair(l, r) => {
-                let i = n.index() as usize;
-                if seen[i] == 0 {
-                    seen[i] = 1;
-                    o.pairs += 1;
-                    if let Some(c) = cache {
-                        if c.get(n).is_some() {
-                            o.memoized += 1;
-                        }
-                    }
-                    stack.push(l);
-                    stack.push(r);
-                } else {
-                    o.pair_reached_twice = true;
-                }
-            }
-        }
-    }
-    o
-}
-
-// --------------------------------------------------------------------------
-// arena tree through any ClvmEncoder (TreeHasher in particular); bottom-up,
-// shared nodes are encoded once, no recursion
-
-struct TreeRef<'a> {
-    t: &'a Tree,
-    root: Tid,
-}
-
-impl<E: ClvmEncoder> ToClvm<E> for TreeRef<'_> {
-    fn to_clvm(&self, e: &mut E) -> Result<E::Node, ToClvmError> {
-        let n = self.root as usize + 1;
-        let mut reach = vec![false; n];
-        reach[self.root as usize] = true;
-        for i in (0..n).rev() {
-            if reach[i] {
-                if let TNode::Pair(l, r) = &self.t.nodes[i] {
-                    reach[*l as usize] = true;
-                    reach[*r as usize] = true;
-                }
-            }
-        }
-        let mut out: Vec<Option<E::Node>> = Vec::with_capacity(n);
-        for i in 0..n {
-            if !reach[i] {
-                out.push(None);
-                continue;
-            }
-            let v = match &self.t.nodes[i] {
-                TNode::Atom(b) => e.encode_atom(Atom::Borrowed(b))?,
-                TNode::Pair(l, r) => {
-                    let l = out[*l as usize].clone().unwrap();
-                    let r = out[*r as usize].clone().unwrap();
-                    e.encode_pair(l, r)?
-                }
-            };
-            out.push(Some(v));
-        }
-        Ok(out[self.root as usize].take().unwrap())
-    }
-}
-
-// --------------------------------------------------------------------------
-// harness-side back-reference serialiser (linear time, any depth). clvmr's
-// node_to_bytes_backrefs searches paths super-linearly, so it is only used on
-// small trees; this one produces *valid but different* back-reference
-// serialisations (references to the nearest instance on the parse stack, to
-// atoms too if asked, only every `every`-th opportunity) for trees of any size.
-//
-// Format (clvmr de_br.rs): `fe <path atom>` refers into the stack of completed
-// values seen as the list (top . (next . ...)); path bits from the least
-// significant: 0 = first, 1 = rest, then a terminating 1 bit.
-
-struct BrPolicy {
-    atoms_too: bool,
-    every: u32,
-    max_path: usize,
-}
-
-/// None: the output would exceed 8 MB (a DAG whose repeats could not be referenced)
-fn serialize_backrefs(t: &Tree, root: Tid, pol: &BrPolicy) -> Option<(Vec<u8>, u32)> {
-    const NONE: u32 = u32::MAX;
-    enum Op {
-        Ser(Tid, u32, u8),
-        Cons(Tid),
-    }
-    let n = root as usize + 1;
-    // structural parent of the first full serialisation: t.nodes[par.0].side == node
-    let mut par: Vec<(u32, u8)> = vec![(NONE, 0); n];
-    let mut done = vec![false; n];
-    let mut sidx: Vec<u32> = vec![NONE; n];
-    let mut vstack: Vec<Tid> = vec![];
-    let mut ops = vec![Op::Ser(root, NONE, 0)];
-    let mut out: Vec<u8> = vec![];
-    let mut opportunities = 0u32;
-    let mut nrefs = 0u32;
-    let mut steps_rev: Vec<u8> = vec![];
-    // expanded serialised length of every node (saturating): repeats of big
-    // sub-trees are always referenced, whatever the policy says
-    let mut slen = vec![0u64; n];
-    for i in 0..n {
-        slen[i] = match &t.nodes[i] {
-            TNode::Atom(b) => b.len() as u64 + 1,
-            TNode::Pair(l, r) => 1u64.saturating_add(slen[*l as usize]).saturating_add(slen[*r as usize]),
-        };
-    }
-    while let Some(op) = ops.pop() {
-        if out.len() > (8 << 20) {
-            return None;
-        }
-        match op {
-            Op::Ser(x, parent, side) => {
-                let xi = x as usize;
-                let candidate = done[xi]
-                    && match &t.nodes[xi] {
-                        TNode::Pair(..) => true,
-                        TNode::Atom(b) => pol.atoms_too && b.len() >= 2,
-                    };
-                if candidate {
-                    opportunities += 1;
-                    let forced = slen[xi] > 256;
-                    let max_path = if forced { 1 << 20 } else { pol.max_path };
-                    if forced || opportunities % pol.every == 0 {
-                        // walk structural parents up to an instance that sits on the value stack
-                        steps_rev.clear();
-                        let mut cur = x;
-                        let mut found: Option<usize> = None;
-                        loop {
-                            let si = sidx[cur as usize];
-                            if si != NONE && (si as usize) < vstack.len() && vstack[si as usize] == cur {
-                                found = Some(si as usize);
-                                break;
-                            }
-                            let (p, sd) = par[cur as usize];
-                            if p == NONE || steps_rev.len() >= max_path {
-                                break;
-                            }
-                            steps_rev.push(sd);
-                            cur = p;
-                        }
-                        if let Some(si) = found {
-                            let k = vstack.len() - 1 - si;
-                            let m = k + 1 + steps_rev.len();
-                            if m <= max_path {
-                                // bits: k x rest(1), first(0), inner steps, terminator(1)
-                                let mut le = vec![0u8; m / 8 + 1];
-                                let mut set = |i: usize| le[i / 8] |= 1 << (i % 8);
-                                for i in 0..k {
-                                    set(i);
-                                }
-                                for (j, sd) in steps_rev.iter().rev().enumerate() {
-                                    if *sd == 1 {
-                                        set(k + 1 + j);
-                                    }
-                                }
-                                set(m);
-                                le.reverse();
-                                out.push(0xfe);
-                                gentree::write_atom(&mut out, &le);
-                                sidx[xi] = vstack.len() as u32;
-                                vstack.push(x);
-                                nrefs += 1;
-                                continue;
-                            }
-                        }
-                    }
-                }
-                if par[xi].0 == NONE {
-                    par[xi] = (parent, side);
-                }
-                match &t.nodes[xi] {
-                    TNode::Atom(b) => {
-                        gentree::write_atom(&mut out, b);
-                        done[xi] = true;
-                        sidx[xi] = vstack.len() as u32;
-                        vstack.push(x);
-                    }
-                    TNode::Pair(l, r) => {
-                        out.push(0xff);
-                        ops.push(Op::Cons(x));
-                        ops.push(Op::Ser(*r, x, 1));
-                        ops.push(Op::Ser(*l, x, 0));
-                    }
-                }
-            }
-            Op::Cons(x) => {
-                vstack.pop();
-                vstack.pop();
-                done[x as usize] = true;
-                sidx[x as usize] = vstack.len() as u32;
-                vstack.push(x);
-            }
-        }
-    }
-    Some((out, nrefs))
-}
-
-// --------------------------------------------------------------------------
-// the routines, each compared with the model hash
-
-struct RoutineOpts {
-    /// run the routines that cost the expanded size
-    plain: bool,
-    /// run clvmr's node_to_bytes_backrefs (an input producer, not under test;
-    /// its path search is super-linear on large trees with repeated big atoms)
-    backrefs: bool,
-    /// the model's own plain serialisation (cross-checks clvmr's node_to_bytes)
-    model_ser: Option<Vec<u8>>,
-    /// a back-reference serialisation made by the harness' own serialiser
-    own_backrefs: Option<Vec<u8>>,
-}
-
-/// returns (backrefs serialisation shorter than plain?, memoized pairs after the fresh-cache run)
-fn check_all_routines(
-    a: &Allocator,
-    node: NodePtr,
-    want: &H,
-    opts: &RoutineOpts,
-    what: &str,
-) -> Result<(bool, u32), engine::Failure> {
-    if opts.plain {
-        let got = th(&tree_hash(a, node));
-        vensure!(
-            got == *want,
-            "C17:tree_hash:differs-from-definition",
-            "tree_hash({what}) = {}, definition gives {}",
-            hx(&got),
-            hx(want)
-        );
-    }
-    // fresh cache, hashed twice through it (the second call finds the root seen twice)
-    let mut cache = TreeCache::default();
-    let got = th(&tree_hash_cached(a, node, &mut cache));
-    vensure!(
-        got == *want,
-        "C17:tree_hash_cached:fresh-cache-differs",
-        "tree_hash_cached({what}, fresh cache) = {}, definition gives {}",
-        hx(&got),
-        hx(want)
-    );
-    let memoized = observe(a, node, Some(&cache)).memoized;
-    let got = th(&tree_hash_cached(a, node, &mut cache));
-    vensure!(
-        got == *want,
-        "C17:tree_hash_cached:second-call-same-cache-differs",
-        "second tree_hash_cached({what}) through the same cache = {}, definition gives {}",
-        hx(&got),
-        hx(want)
-    );
-    // pre-pass first (run_block_generator2 order), then hash
-    let mut cache = TreeCache::default();
-    cache.visit_tree(a, node);
-    let got = th(&tree_hash_cached(a, node, &mut cache));
-    vensure!(
-        got == *want,
-        "C17:tree_hash_cached:after-visit_tree-differs",
-        "visit_tree then tree_hash_cached({what}) = {}, definition gives {}",
-        hx(&got),
-        hx(want)
-    );
-    // serialisations
-    let mut plain_len = None;
-    if opts.plain {
-        let ser = node_to_bytes_limit(a, node, 1 << 30).expect("node_to_bytes");
-        plain_len = Some(ser.len());
-        if let Some(ms) = &opts.model_ser {
-            // harness-side sanity (both are serialisers outside clvm-utils)
-            assert!(*ms == ser, "harness: model serialisation differs from clvmr node_to_bytes");
-        }
-        match tree_hash_from_bytes(&ser) {
-            Ok(h) => vensure!(
-                th(&h) == *want,
-                "C17:tree_hash_from_bytes:plain-serialization-differs",
-                "tree_hash_from_bytes(node_to_bytes({what})) = {}, definition gives {}",
-                hx(&th(&h)),
-                hx(want)
-            ),
-            Err(e) => vfail!(
-                "C17:tree_hash_from_bytes:plain-serialization-rejected",
-                "tree_hash_from_bytes rejected node_to_bytes({what}): {e:?}"
-            ),
-        }
-    }
-    if let Some(ob) = &opts.own_backrefs {
-        match tree_hash_from_bytes(ob) {
-            Ok(h) => vensure!(
-                th(&h) == *want,
-                "C17:tree_hash_from_bytes:backrefs-serialization-differs",
-                "tree_hash_from_bytes(back-reference serialisation of {what} made by the harness, {} bytes) = {}, definition gives {}",
-                ob.len(),
-                hx(&th(&h)),
-                hx(want)
-            ),
-            Err(e) => vfail!(
-                "C17:tree_hash_from_bytes:backrefs-serialization-rejected",
-                "tree_hash_from_bytes rejected the harness' back-reference serialisation of {what}: {e:?}"
-            ),
-        }
-    }
-    if !opts.backrefs {
-        return Ok((false, memoized));
-    }
-    let serb = node_to_bytes_backrefs(a, node).expect("node_to_bytes_backrefs");
-    match tree_hash_from_bytes(&serb) {
-        Ok(h) => vensure!(
-            th(&h) == *want,
-            "C17:tree_hash_from_bytes:backrefs-serialization-differs",
-            "tree_hash_from_bytes(node_to_bytes_backrefs({what})) = {}, definition gives {}",
-            hx(&th(&h)),
-            hx(want)
-        ),
-        Err(e) => vfail!(
-            "C17:tree_hash_from_bytes:backrefs-serialization-rejected",
-            "tree_hash_from_bytes rejected node_to_bytes_backrefs({what}): {e:?}"
-        ),
-    }
-    let shorter = match plain_len {
-        Some(p) => serb.len() < p,
-        None => true,
-    };
-    Ok((shorter, memoized))
-}
-
-// --------------------------------------------------------------------------
-// sub-check 1: small atoms, enumerated
-
-fn small_values() -> Vec<Vec<u8>> {
-    let mut v: Vec<Vec<u8>> = vec![vec![]];
-    for i in 1..=25u8 {
-        v.push(vec![i]);
-    }
-    for extra in [
-        &[0x7f][..],
-        &[0x80],
-        &[0xff],
-        &[0x00],
-        &[0x00, 0x00],
-        &[0x00, 0x05],
-        &[0x00, 0x17],
-        &[0x00, 0x18],
-        &[0x00, 0x80],
-        &[0x00, 0x00, 0x05],
-        &[0x01, 0x00],
-        &[0x17, 0x00],
-        &[0x7f, 0xff],
-        &[0x03, 0xff, 0xff, 0xff],
-        &[0x04, 0x00, 0x00, 0x00],
-        &[0x00, 0x00, 0x00, 0x00, 0x17],
-        &[0x17; 32],
-    ] {
-        v.push(extra.to_vec());
-    }
-    v
-}
-
-fn enum_small(_tier: Tier, shard: usize, n: usize, emit: &mut dyn FnMut(&[u8]) -> bool) {
-    let nv = small_values().len();
-    let mut idx = 0usize;
-    for vi in 0..nv {
-        for mode in 0..N_ATOM_MODES {
-            let mine = idx % n == shard;
-            idx += 1;
-            if mine && !emit(&[vi as u8, mode as u8]) {
-                return;
-            }
-        }
-    }
-}
-
-/// bytes = [index into small_values(), atom representation mode]
-fn case_small(bytes: &[u8], ctx: &mut Ctx) -> CaseResult {
-    let vals = small_values();
-    let vi = usize::from(*bytes.first().unwrap_or(&0)).min(vals.len() - 1);
-    let mode = (*bytes.get(1).unwrap_or(&0)).min(N_ATOM_MODES as u8 - 1);
-    let b = vals[vi].clone();
-    let other = vals[(vi + 1) % 24].clone();
-
-    ctx.render(|| {
-        format!(
-            "atom {} built with representation {mode} (0 new_atom, 1 new_small_number, 2 substr of heap buffer, 3 concat, 4 substr of small number), alone and inside 8 pair/list/DAG contexts, shared and expanded",
-            hx(&b)
-        )
-    });
-    // the constants themselves, against the definition
-    let want_atom = mth::hash_atom(&b);
-    let small = canonical_small(&b).filter(|v| *v < 24);
-    if let Some(v) = small {
-        vensure!(
-            th(&PRECOMPUTED_HASHES[v as usize]) == want_atom,
-            "C17:PRECOMPUTED_HASHES:wrong-constant",
-            "PRECOMPUTED_HASHES[{v}] = {}, sha256(01 ‖ {}) = {}",
-            hx(&th(&PRECOMPUTED_HASHES[v as usize])),
-            hx(&b),
-            hx(&want_atom)
-        );
-    }
-    vensure!(
-        th(&tree_hash_atom(&b)) == want_atom,
-        "C17:tree_hash_atom:differs-from-definition",
-        "tree_hash_atom({}) = {}, definition gives {}",
-        hx(&b),
-        hx(&th(&tree_hash_atom(&b))),
-        hx(&want_atom)
-    );
-
-    // contexts, all in one arena
-    let mut t = Tree::new();
-    let x = t.atom(&b);
-    let y = t.atom(&other);
-    let nil = t.nil();
-    let xx = t.pair(x, x);
-    let xn = t.pair(x, nil);
-    let nx = t.pair(nil, x);
-    let xy = t.pair(x, y);
-    let yx = t.pair(y, x);
-    let dag = t.pair(xx, xx);
-    let lst = t.list(&[x, y, x, xy, x]);
-    let mix = t.pair(dag, lst);
-    let roots = [x, xx, xn, nx, xy, yx, dag, lst, mix];
-    let mut hashes = vec![];
-    extend_hashes(&t, &mut hashes);
-    vensure!(
-        th(&tree_hash_pair(TreeHash::new(hashes[x as usize]), TreeHash::new(hashes[y as usize]))) == hashes[xy as usize],
-        "C17:tree_hash_pair:differs-from-definition",
-        "tree_hash_pair(h({}), h({}))",
-        hx(&b),
-        hx(&other)
-    );
-
-    let mut obs_inline = false;
-    let mut obs_heap = false;
-    for share in [true, false] {
-        let mut a = Allocator::new();
-        let mut map = vec![];
-        // one cache shared by all contexts, in order
-        let mut shared = TreeCache::default();
-        for (ri, r) in roots.iter().enumerate() {
-            // floor = 0: nothing is linked in expanded mode, every context is built afresh
-            let (node, _) = if share {
-                build_inc(&mut a, &t, *r, true, mode, 0, &mut map)
-            } else {
-                build_inc(&mut a, &t, *r, false, mode, 0, &mut map)
-            };
-            let what = format!("context #{ri} of atom {} (repr {mode}, share {share})", hx(&b));
-            let opts = RoutineOpts {
-                plain: true,
-                backrefs: true,
-                model_ser: Some(t.serialize(*r)),
-                own_backrefs: serialize_backrefs(&t, *r, &BrPolicy { atoms_too: share, every: 1, max_path: 4096 }).map(|x| x.0),
-            };
-            check_all_routines(&a, node, &hashes[*r as usize], &opts, &what)?;
-            let got = th(&tree_hash_cached(&a, node, &mut shared));
-            vensure!(
-                got == hashes[*r as usize],
-                "C17:tree_hash_cached:shared-cache-differs",
-                "tree_hash_cached({what}) through a cache shared with the previous contexts = {}, definition gives {}",
-                hx(&got),
-                hx(&hashes[*r as usize])
-            );
-            let got = th(&TreeRef { t: &t, root: *r }.tree_hash());
-            vensure!(
-                got == hashes[*r as usize],
-                "C17:TreeHasher:differs-from-definition",
-                "TreeHasher encoding of {what} = {}, definition gives {}",
-                hx(&got),
-                hx(&hashes[*r as usize])
-            );
-            if ri == 0 {
-                match a.node(node) {
-                    NodeVisitor::U32(_) => obs_inline = true,
-                    NodeVisitor::Buffer(_) => obs_heap = true,
-                    NodeVisitor::Pair(..) => unreachable!(),
-                }
-            }
-        }
-    }
-    let class = if b.is_empty() {
-        "empty"
-    } else if small.is_some() {
-        "small<24"
-    } else {
-        "neighbour"
-    };
-    if obs_inline {
-        ctx.label(format!("{class}:inline(U32)"));
-    }
-    if obs_heap {
-        ctx.label(format!("{class}:heap(Buffer)"));
-    }
-    ctx.label(format!("atom-repr:{mode}"));
-    ctx.add_inner((roots.len() * 2) as u64);
-    if small.is_some() || obs_heap {
-        let mut f = Fnv::new();
-        f.write(&b).write(&[0xff, mode]);
-        ctx.nontrivial(f.finish());
-    }
-    Ok(())
-}
-
-// --------------------------------------------------------------------------
-// sub-check 2: single trees of many shapes
-
-fn pick_recent(s: &mut Src<'_>, pool: &[Tid]) -> Tid {
-    if s.bool() {
-        let k = pool.len();
-        let back = s.below(3.min(k));
-        pool[k - 1 - back]
-    } else {
-        pool[s.below(pool.len())]
-    }
-}
-
-fn gen_chain(s: &mut Src<'_>, t: &mut Tree) -> (Tid, usize) {
-    let depth = match s.weighted(&[75, 23, 2]) {
-        0 => s.range(1, 64),
-        1 => s.range(65, 2000),
-        _ => match s.below(3) {
-            0 => s.range(2001, 9_999),
-            1 => s.range(10_000, 25_000),
-            _ => s.range(25_001, 50_000),
-        },
-    };
-    let npool = s.range(1, 4);
-    let mut pool = vec![];
-    for _ in 0..npool {
-        let b = gen_atom(s);
-        pool.push(t.atom(&b));
-    }
-    // 0: right chain (list-like), 1: left chain, 2: by pattern, 3: by pattern with doubling (cur . cur)
-    let side = s.below(4);
-    let pat = s.u32();
-    let off = s.below(8);
-    let mut cur = if s.bool() { gen_tree(s, t, 8) } else { pool[0] };
-    let mut doublings = 0;
-    for i in 0..depth {
-        let leaf = pool[(i + off) % npool];
-        let bit = (pat >> (i % 32)) & 1 == 1;
-        cur = match side {
-            0 => t.pair(leaf, cur),
-            1 => t.pair(cur, leaf),
-            2 => {
-                if bit {
-                    t.pair(leaf, cur)
-                } else {
-                    t.pair(cur, leaf)
-                }
-            }
-            _ => {
-                if bit && i % 5 == 0 && doublings < 48 {
-                    doublings += 1;
-                    t.pair(cur, cur)
-                } else if bit {
-                    t.pair(leaf, cur)
-                } else {
-                    t.pair(cur, leaf)
-                }
-            }
-        };
-    }
-    (cur, depth)
-}
-
-fn gen_wide(s: &mut Src<'_>, t: &mut Tree) -> (Tid, usize) {
-    let n = match s.weighted(&[75, 23, 2]) {
-        0 => s.range(1, 50),
-        1 => s.range(51, 2000),
-        _ => s.range(2001, 20_000),
-    };
-    let npool = s.range(1, 5);
-    let mut pool = vec![];
-    for _ in 0..npool {
-        let budget = s.range(1, 12);
-        pool.push(gen_tree(s, t, budget));
-    }
-    let pat = s.u32();
-    let mut items = Vec::with_capacity(n);
-    for i in 0..n {
-        let k = ((pat >> (i % 29)) as usize + i) % npool;
-        items.push(pool[k]);
-    }
-    let tail = if s.chance(64) {
-        let b = gen_atom(s);
-        t.atom(&b)
-    } else {
-        t.nil()
-    };
-    (t.list_with_tail(&items, tail), n)
-}
-
-fn gen_dag(s: &mut Src<'_>, t: &mut Tree) -> (Tid, usize) {
-    let levels = match s.weighted(&[60, 35, 5]) {
-        0 => s.range(2, 14),
-        1 => s.range(15, 60),
-        _ => s.range(61, 400),
-    };
-    let width = s.range(1, 3);
-    let mut prev: Vec<Tid> = vec![];
-    for _ in 0..=width {
-        let b = gen_atom(s);
-        prev.push(t.atom(&b));
-    }
-    let mut prev2: Vec<Tid> = prev.clone();
-    for _ in 0..levels {
-        let mut cur = vec![];
-        for _ in 0..width {
-            let from = |s: &mut Src<'_>, prev: &Vec<Tid>, prev2: &Vec<Tid>| -> Tid {
-                if s.chance(48) {
-                    prev2[s.below(prev2.len())]
-                } else {
-                    prev[s.below(prev.len())]
-                }
-            };
-            let l = from(s, &prev, &prev2);
-            let r = from(s, &prev, &prev2);
-            cur.push(t.pair(l, r));
-        }
-        prev2 = prev;
-        prev = cur;
-    }
-    let mut root = prev[0];
-    for x in &prev[1..] {
-        root = t.pair(root, *x);
-    }
-    (root, levels)
-}
-
-fn gen_combo(s: &mut Src<'_>, t: &mut Tree) -> (Tid, usize) {
-    let k = s.range(2, 6);
-    let mut subs = vec![];
-    for _ in 0..k {
-        if !subs.is_empty() && s.chance(80) {
-            let d = subs[s.below(subs.len())];
-            subs.push(d);
-        } else {
-            let budget = s.range(2, 60);
-            subs.push(gen_tree(s, t, budget));
-        }
-    }
-    (t.list(&subs), k)
-}
-
-fn case_tree(bytes: &[u8], ctx: &mut Ctx) -> CaseResult {
-    let mut s = Src::new(bytes);
-    let mut t = Tree::new();
-    let shape = s.weighted(&[8, 3, 2, 3, 2]);
-    let (root, param) = match shape {
-        0 => {
-            let budget = match s.weighted(&[4, 4, 2, 1]) {
-                0 => 8,
-                1 => 40,
-                2 => 150,
-                _ => 600,
-            };
-            (gen_tree(&mut s, &mut t, budget), budget)
-        }
-        1 => gen_chain(&mut s, &mut t),
-        2 => gen_wide(&mut s, &mut t),
-        3 => gen_dag(&mut s, &mut t),
-        _ => gen_combo(&mut s, &mut t),
-    };
-    let shape_name = ["random", "chain", "wide", "dag", "combo"][shape];
-    let own_builder = s.below(3) == 2;
-    let mut mode = BuildMode::from_src(&mut s);
-    let amode_own = s.below(N_ATOM_MODES) as u8;
-    let junk = s.below(4);
-    let pol = BrPolicy {
-        atoms_too: s.bool(),
-        every: 1 + s.below(3) as u32,
-        max_path: [2048usize, 128, 16][s.below(3)],
-    };
-    let want = mth::tree_hash(&t, root);
-    let expanded = t.expanded_size(root);
-    let plain = expanded <= EXPANDED_LIMIT && serialized_len(&t, root) <= SERIALIZED_LIMIT;
-
-    let mut a = Allocator::new();
-    // unrelated allocations first, so that pair indices do not start at 0
-    for i in 0..junk {
-        let x = a.new_atom(&[0xee, i as u8, 0x01]).unwrap();
-        let n = a.nil();
-        a.new_pair(x, n).unwrap();
-    }
-    // expanded (one node per occurrence) builds only up to 20 000 nodes
-    if expanded > 20_000 {
-        mode.share = true;
-    }
-    let share_eff = mode.share;
-    let (node, amode) = if own_builder {
-        let mut map = vec![];
-        let (n, _) = build_inc(&mut a, &t, root, mode.share, amode_own, 0, &mut map);
-        (n, amode_own)
-    } else {
-        (gentree::build(&mut a, &t, root, mode), mode.atoms)
-    };
-    let o = observe(&a, node, None);
-    ctx.render(|| {
-        format!(
-            "shape {shape_name}({param}), {} pairs in allocator, {} build, atoms mode {}{amode}, {junk} junk pairs first, expanded size {expanded}: {}",
-            o.pairs,
-            if share_eff { "shared" } else { "expanded" },
-            if own_builder { "own" } else { "gentree" },
-            t.render(root)
-        )
-    });
-    let backrefs = o.pairs <= BACKREFS_MAX_PAIRS;
-    let model_ser = if plain { Some(t.serialize(root)) } else { None };
-    let (own_br, own_refs) = match serialize_backrefs(&t, root, &pol) {
-        Some((b, r)) => (Some(b), r),
-        None => (None, 0),
-    };
-    if let Some(own_br) = &own_br {
-        // harness-side sanity of the harness' own back-reference serialiser
-        // (nothing of clvm-utils involved): clvmr's deserialiser must read it
-        // back as a tree whose hash by clvmr's own ObjectCache/treehash is the
-        // definition's. A failure here is a harness bug, not a finding.
-        if own_refs > 0 && (t.nodes.len() <= 300 || s.chance(16)) {
-            let mut a2 = Allocator::new();
-            let n2 = clvmr::serde::node_from_bytes_backrefs(&mut a2, own_br)
-                .expect("harness: own back-reference serialisation does not parse");
-            let mut oc = clvmr::serde::ObjectCache::new(clvmr::serde::treehash);
-            let h2 = oc.get_or_calculate(&a2, &n2, None).expect("clvmr treehash");
-            assert!(h2[..] == want[..], "harness: own back-reference serialisation decodes to a different tree");
-        }
-    }
-    let opts = RoutineOpts {
-        plain,
-        backrefs,
-        model_ser,
-        own_backrefs: own_br,
-    };
-    let (br_shorter, memoized) = check_all_routines(&a, node, &want, &opts, "tree")?;
-    // the TreeHasher encoder, and the Allocator encoder as one more way of building
-    let got = th(&TreeRef { t: &t, root }.tree_hash());
-    vensure!(
-        got == want,
-        "C17:TreeHasher:differs-from-definition",
-        "TreeHasher encoding of the tree = {}, definition gives {}",
-        hx(&got),
-        hx(&want)
-    );
-    if s.chance(64) {
-        let n2 = TreeRef { t: &t, root }.to_clvm(&mut a).expect("to_clvm");
-        let mut c = TreeCache::default();
-        let got = th(&tree_hash_cached(&a, n2, &mut c));
-        vensure!(
-            got == want,
-            "C17:tree_hash_cached:fresh-cache-differs",
-            "tree_hash_cached of the tree encoded through ToClvm<Allocator> = {}, definition gives {}",
-            hx(&got),
-            hx(&want)
-        );
-    }
-    ctx.label(format!("shape:{shape_name}"));
-    ctx.label(if share_eff { "build:shared" } else { "build:expanded" });
-    ctx.label(format!("atoms:{}{amode}", if own_builder { "own" } else { "gentree" }));
-    if o.pair_reached_twice {
-        ctx.label("memo-path:pair-reached-twice");
-    }
-    if memoized > 0 {
-        ctx.label("memo-populated");
-    }
-    if o.small_heap {
-        ctx.label("small-atom:heap");
-    }
-    if o.small_inline {
-        ctx.label("small-atom:inline");
-    }
-    if o.empty_heap {
-        ctx.label("empty-atom:heap");
-    }
-    if !plain {
-        ctx.label("plain-routines-skipped(expanded>60k)");
-    }
-    if plain && backrefs && br_shorter {
-        ctx.label("backrefs-used");
-    }
-    if !backrefs {
-        ctx.label("clvmr-backrefs-skipped(pairs>256)");
-    }
-    if own_refs > 0 {
-        ctx.label("own-backrefs-used");
-        if o.pairs > 10_000 {
-            ctx.label("own-backrefs-used:pairs>10000");
-        }
-    }
-    if shape == 1 && param >= 10_000 {
-        ctx.label("chain>=10000");
-    }
-    if shape == 2 && param >= 2_000 {
-        ctx.label("list>=2000");
-    }
-    if shape == 3 && param > 60 {
-        ctx.label("dag>60-levels");
-    }
-    if o.pair_reached_twice || o.small_heap {
-        let mut f = Fnv::new();
-        f.write(&want).write(&[shape as u8, u8::from(share_eff), amode, u8::from(own_builder)]);
-        ctx.nontrivial(f.finish());
-    }
-    ctx.ran_dry(s.ran_dry());
-    Ok(())
-}
-
-// --------------------------------------------------------------------------
-// sub-check 3: histories through one TreeCache
-
-struct Hist {
-    a: Allocator,
-    t: Tree,
-    map: Vec<Option<NodePtr>>,
-    hashes: Vec<H>,
-    cache: TreeCache,
-    /// roots of the trees built so far (arena ids)
-    roots: Vec<Tid>,
-    /// nodes (roots and inner nodes) that later trees may link and that may be hashed on their own
-    exported: Vec<Tid>,
-    fp: Fnv,
-    log: Vec<String>,
-    want_log: bool,
-    // counters for labels
-    hashed_roots: Vec<Tid>,
-    cross_tree_links: u32,
-    memo_hits_seen: u32,
-    junk_ops: u32,
-    visits: u32,
-    same_root_again: u32,
-}
-
-impl Hist {
-    fn gen_and_build(&mut self, s: &mut Src<'_>) {
-        let floor = self.t.nodes.len() as Tid;
-        let mut candidates: Vec<Tid> = vec![];
-        let kind = if self.exported.is_empty() { 0 } else { s.weighted(&[6, 2, 2, 1]) };
-        let root = match kind {
-            1 => {
-                // the very same puzzle again (same NodePtr)
-                self.same_root_again += 1;
-                self.roots[s.below(self.roots.len())]
-            }
-            2 => {
-                let imp = self.exported[s.below(self.exported.len())];
-                if s.bool() {
-                    let imp2 = self.exported[s.below(self.exported.len())];
-                    self.t.pair(imp, imp2)
-                } else {
-                    let b = gen_atom(s);
-                    let at = self.t.atom(&b);
-                    if s.bool() {
-                        self.t.pair(imp, at)
-                    } else {
-                        self.t.pair(at, imp)
-                    }
-                }
-            }
-            3 => {
-                // structurally equal copy of an earlier node out of fresh arena nodes
-                let src = self.exported[s.below(self.exported.len())];
-                let n = src as usize + 1;
-                let mut reach = vec![false; n];
-                reach[src as usize] = true;
-                for i in (0..n).rev() {
-                    if reach[i] {
-                        if let TNode::Pair(l, r) = &self.t.nodes[i] {
-                            reach[*l as usize] = true;
-                            reach[*r as usize] = true;
-                        }
-                    }
-                }
-                let mut copy: Vec<Tid> = vec![0; n];
-                for i in 0..n {
-                    if reach[i] {
-                        copy[i] = match self.t.nodes[i].clone() {
-                            TNode::Atom(b) => self.t.atom(&b),
-                            TNode::Pair(l, r) => self.t.pair(copy[l as usize], copy[r as usize]),
-                        };
-                    }
-                }
-                copy[src as usize]
-            }
-            _ => {
-                let budget = match s.weighted(&[4, 4, 2]) {
-                    0 => 6,
-                    1 => 20,
-                    _ => 60,
-                };
-                let mut pool: Vec<Tid> = vec![];
-                let n_atoms = s.range(1, 4);
-                for _ in 0..n_atoms {
-                    let b = gen_atom(s);
-                    pool.push(self.t.atom(&b));
-                }
-                if !self.exported.is_empty() {
-                    let n_imp = s.below(4);
-                    for _ in 0..n_imp {
-                        let imp = self.exported[s.below(self.exported.len())];
-                        pool.push(imp);
-                    }
-                }
-                let steps = s.below(budget);
-                for _ in 0..steps {
-                    let (l, r) = if s.chance(40) {
-                        let b = gen_atom(s);
-                        let at = self.t.atom(&b);
-                        if s.bool() {
-                            (at, pick_recent(s, &pool))
-                        } else {
-                            (pick_recent(s, &pool), at)
-                        }
-                    } else {
-                        (pick_recent(s, &pool), pick_recent(s, &pool))
-                    };
-                    let p = self.t.pair(l, r);
-                    pool.push(p);
-                }
-                let root = *pool.last().unwrap();
-                // up to two inner nodes are exported too (if the root reaches them)
-                for _ in 0..s.below(3) {
-                    let x = pool[s.below(pool.len())];
-                    if x >= floor {
-                        candidates.push(x);
-                    }
-                }
-                root
-            }
-        };
-        let share = s.below(4) != 1;
-        let amode = s.below(N_ATOM_MODES) as u8;
-        extend_hashes(&self.t, &mut self.hashes);
-        let (_, info) = build_inc(&mut self.a, &self.t, root, share, amode, floor, &mut self.map);
-        if self.map[root as usize].is_none() {
-            unreachable!("harness: root not mapped");
-        }
-        self.cross_tree_links += info.imported_pairs;
-        self.roots.push(root);
-        self.exported.push(root);
-        for c in candidates {
-            if self.map[c as usize].is_some() {
-                self.exported.push(c);
-            }
-        }
-        self.fp.write(&[1, u8::from(share), amode]).write(&self.hashes[root as usize]);
-        if self.want_log {
-            self.log.push(format!(
-                "build T{} = {} [{} new pairs, {} linked from earlier trees, {}, atoms {amode}]",
-                self.roots.len() - 1,
-                self.t.render(root),
-                info.new_pairs,
-                info.imported_pairs,
-                if share { "shared" } else { "expanded" }
-            ));
-        }
-    }
-
-    fn junk(&mut self, s: &mut Src<'_>) {
-        let n = s.range(1, 12);
-        let mut last = self.a.nil();
-        for i in 0..n {
-            match s.below(3) {
-                0 => {
-                    last = self.a.new_atom(&[0xd0, i as u8, s.u8()]).unwrap();
-                }
-                1 => {
-                    let x = self.a.new_small_number(s.below(40) as u32).unwrap();
-                    last = self.a.new_pair(x, last).unwrap();
-                }
-                _ => {
-                    // a pair that points into an existing tree but belongs to none
-                    let e = if self.exported.is_empty() {
-                        self.a.nil()
-                    } else {
-                        self.map[self.exported[s.below(self.exported.len())] as usize].unwrap()
-                    };
-                    last = self.a.new_pair(e, last).unwrap();
-                }
-            }
-        }
-        self.junk_ops += 1;
-        self.fp.write(&[2, n as u8]);
-        if self.want_log {
-            self.log.push(format!("{n} unrelated allocations"));
-        }
-    }
-
-    fn name(&self, id: Tid) -> String {
-        match self.roots.iter().position(|r| *r == id) {
-            Some(i) => format!("T{i}"),
-            None => format!("inner node {}", self.t.render(id)),
-        }
-    }
-
-    fn visit(&mut self, id: Tid) {
-        let n = self.map[id as usize].unwrap();
-        self.cache.visit_tree(&self.a, n);
-        self.visits += 1;
-        self.fp.write(&[3]).write(&self.hashes[id as usize]);
-        if self.want_log {
-            self.log.push(format!("cache.visit_tree({})", self.name(id)));
-        }
-    }
-
-    fn hash(&mut self, id: Tid) -> CaseResult {
-        let n = self.map[id as usize].unwrap();
-        if observe(&self.a, n, Some(&self.cache)).memoized > 0 {
-            self.memo_hits_seen += 1;
-        }
-        if self.want_log {
-            self.log.push(format!("tree_hash_cached({})", self.name(id)));
-        }
-        let got = th(&tree_hash_cached(&self.a, n, &mut self.cache));
-        let want = self.hashes[id as usize];
-        vensure!(
-            got == want,
-            "C17:tree_hash_cached:history-dependent-result",
-            "tree_hash_cached({}) through the shared cache = {}, definition gives {} (step {} of the history)",
-            self.name(id),
-            hx(&got),
-            hx(&want),
-            self.log.len()
-        );
-        if !self.hashed_roots.contains(&id) {
-            self.hashed_roots.push(id);
-        }
-        self.fp.write(&[4]).write(&want);
-        Ok(())
-    }
-}
-
-fn case_history(bytes: &[u8], ctx: &mut Ctx) -> CaseResult {
-    let mut s = Src::new(bytes);
-    let k = 1 + s.below(8);
-    let style = s.below(3);
-    let prepass = s.bool();
-    let mut h = Hist {
-        a: Allocator::new(),
-        t: Tree::new(),
-        map: vec![],
-        hashes: vec![],
-        cache: TreeCache::default(),
-        roots: vec![],
-        exported: vec![],
-        fp: Fnv::new(),
-        log: vec![],
-        want_log: ctx.want_render(),
-        hashed_roots: vec![],
-        cross_tree_links: 0,
-        memo_hits_seen: 0,
-        junk_ops: 0,
-        visits: 0,
-        same_root_again: 0,
-    };
-    h.fp.write(&[style as u8, u8::from(prepass)]);
-    // run the body; the rendering is produced even when it fails
-    let r = history_body(&mut s, &mut h, k, style, prepass);
-    let style_name = ["block", "interleaved", "free-form"][style];
-    ctx.render(|| {
-        format!(
-            "history ({style_name}, {} trees, pre-pass {}): {}",
-            h.roots.len(),
-            if style == 2 { "n/a".to_string() } else { prepass.to_string() },
-            h.log.join("; ")
-        )
-    });
-    r?;
-    // number of distinct nodes (roots and, in free-form histories, inner nodes) hashed through the one cache
-    ctx.label(match h.hashed_roots.len() {
-        n @ 0..=8 => format!("history-len:{n}"),
-        _ => "history-len:9+".to_string(),
-    });
-    ctx.label(format!("style:{style_name}"));
-    if style != 2 {
-        ctx.label(if prepass { "prepass:visit_tree-all-first" } else { "prepass:none" });
-    }
-    if h.cross_tree_links > 0 {
-        ctx.label("later-tree-links-earlier-pairs");
-    }
-    if h.memo_hits_seen > 0 {
-        ctx.label("memo-hit:cache-already-holds-subtree");
-    }
-    if h.junk_ops > 0 {
-        ctx.label("unrelated-allocations-interleaved");
-    }
-    if h.same_root_again > 0 {
-        ctx.label("same-puzzle-node-again");
-    }
-    if h.hashed_roots.len() >= 2 {
-        ctx.nontrivial(h.fp.finish());
-    }
-    ctx.ran_dry(s.ran_dry());
-    Ok(())
-}
-
-fn history_body(s: &mut Src<'_>, h: &mut Hist, k: usize, style: usize, prepass: bool) -> CaseResult {
-    match style {
-        0 => {
-            // as run_block_generator2: all puzzles exist, visit_tree over all, then hash each
-            for _ in 0..k {
-                h.gen_and_build(s);
-                if s.chance(40) {
-                    h.junk(s);
-                }
-            }
-            if prepass {
-                for i in 0..k {
-                    let r = h.roots[i];
-                    h.visit(r);
-                }
-            }
-            let reverse = s.chance(48);
-            for i in 0..k {
-                if s.chance(96) {
-                    h.junk(s); // run_program allocates between the hashes
-                }
-                let r = h.roots[if reverse { k - 1 - i } else { i }];
-                h.hash(r)?;
-            }
-        }
-        1 => {
-            for i in 0..k {
-                h.gen_and_build(s);
-                if s.chance(64) {
-                    h.junk(s);
-                }
-                if prepass {
-                    let r = h.roots[i];
-                    h.visit(r);
-                }
-                let r = h.roots[i];
-                h.hash(r)?;
-                if s.chance(48) {
-                    let r = h.roots[s.below(i + 1)];
-                    h.hash(r)?;
-                }
-            }
-        }
-        _ => {
-            h.gen_and_build(s);
-            let nops = s.range(k, 30);
-            for _ in 0..nops {
-                match s.weighted(&[4, 3, 2, 2, 1]) {
-                    0 => {
-                        let r = h.roots[s.below(h.roots.len())];
-                        h.hash(r)?;
-                    }
-                    1 => {
-                        if h.roots.len() < k {
-                            h.gen_and_build(s);
-                        } else {
-                            let r = h.roots[s.below(h.roots.len())];
-                            h.hash(r)?;
-                        }
-                    }
-                    2 => {
-                        let r = h.exported[s.below(h.exported.len())];
-                        h.visit(r);
-                    }
-                    3 => {
-                        // an inner node on its own
-                        let r = h.exported[s.below(h.exported.len())];
-                        h.hash(r)?;
-                    }
-                    _ => h.junk(s),
-                }
-            }
-        }
-    }
-    // epilogue: every root once more through the shared cache, then through
-    // the history-free routines
-    for i in 0..h.roots.len() {
-        let r = h.roots[i];
-        h.hash(r)?;
-    }
-    for i in 0..h.roots.len() {
-        let r = h.roots[i];
-        let n = h.map[r as usize].unwrap();
-        let want = h.hashes[r as usize];
-        if h.t.expanded_size(r) <= EXPANDED_LIMIT {
-            let got = th(&tree_hash(&h.a, n));
-            vensure!(
-                got == want,
-                "C17:tree_hash:differs-from-definition",
-                "tree_hash(T{i}) = {}, definition gives {}",
-                hx(&got),
-                hx(&want)
-            );
-        }
-        let mut c = TreeCache::default();
-        let got = th(&tree_hash_cached(&h.a, n, &mut c));
-        vensure!(
-            got == want,
-            "C17:tree_hash_cached:fresh-cache-differs",
-            "tree_hash_cached(T{i}, fresh cache) = {}, definition gives {}",
-            hx(&got),
-            hx(&want)
-        );
-    }
-    Ok(())
-}
-
-// --------------------------------------------------------------------------
-// sub-check 4: curried programs
-
-fn curried<E: ClvmEncoder>(enc: &mut E, p: E::Node, v: &[E::Node]) -> E::Node {
-    macro_rules! go {
-        ($($i:expr),*) => {
-            CurriedProgram { program: p.clone(), args: clvm_curried_args!($( v[$i].clone() ),*) }.to_clvm(enc)
-        };
-    }
-    let r = match v.len() {
-        0 => go!(),
-        1 => go!(0),
-        2 => go!(0, 1),
-        3 => go!(0, 1, 2),
-        4 => go!(0, 1, 2, 3),
-        5 => go!(0, 1, 2, 3, 4),
-        6 => go!(0, 1, 2, 3, 4, 5),
-        7 => go!(0, 1, 2, 3, 4, 5, 6),
-        8 => go!(0, 1, 2, 3, 4, 5, 6, 7),
-        _ => unreachable!(),
-    };
-    r.expect("CurriedProgram::to_clvm")
-}
-
-fn case_curry(bytes: &[u8], ctx: &mut Ctx) -> CaseResult {
-    let mut s = Src::new(bytes);
-    let nargs = s.below(9);
-    let mut t = Tree::new();
-    let pb = match s.weighted(&[2, 4, 2]) {
-        0 => 1,
-        1 => 12,
-        _ => 40,
-    };
-    let p = gen_tree(&mut s, &mut t, pb);
-    let mut args: Vec<Tid> = vec![];
-    for _ in 0..nargs {
-        if !args.is_empty() && s.chance(40) {
-            // the same argument (node) twice
-            let d = args[s.below(args.len())];
-            args.push(d);
-        } else if s.chance(24) {
-            args.push(p);
-        } else {
-            let b = s.range(1, 10);
-            args.push(gen_tree(&mut s, &mut t, b));
-        }
-    }
-    let share = s.below(4) != 1;
-    let amode = s.below(N_ATOM_MODES) as u8;
-    let cur = mth::curry(&mut t, p, &args);
-    let mut hashes = vec![];
-    extend_hashes(&t, &mut hashes);
-    let want = hashes[cur as usize];
-
-    ctx.render(|| {
-        format!(
-            "curry p = {} with {nargs} args [{}] ({} build, atoms {amode})",
-            t.render(p),
-            args.iter().map(|x| t.render(*x)).collect::<Vec<_>>().join(", "),
-            if share { "shared" } else { "expanded" }
-        )
-    });
-
-    // 1. from hashes alone (model hashes as input)
-    let ph = TreeHash::new(hashes[p as usize]);
-    let ahs: Vec<TreeHash> = args.iter().map(|x| TreeHash::new(hashes[*x as usize])).collect();
-    let got = th(&curry_tree_hash(ph, &ahs));
-    vensure!(
-        got == want,
-        "C17:curry_tree_hash:differs-from-actual-curried-program",
-        "curry_tree_hash(hash(p), {nargs} arg hashes) = {}, tree hash of (a (q . p) (c (q . a1) ... 1)) by definition = {}",
-        hx(&got),
-        hx(&want)
-    );
-
-    // 2. the actual curried program in an allocator
-    let mut a = Allocator::new();
-    let mut map = vec![];
-    let (pn, _) = build_inc(&mut a, &t, p, share, amode, 0, &mut map);
-    let mut ans = vec![];
-    for x in &args {
-        // floor above everything: arguments equal to an earlier node are linked
-        let (n, _) = build_inc(&mut a, &t, *x, share, amode, t.nodes.len() as Tid, &mut map);
-        ans.push(n);
-    }
-    let cn = curried(&mut a, pn, &ans);
-    let opts = RoutineOpts {
-        plain: t.expanded_size(cur) <= EXPANDED_LIMIT,
-        backrefs: true,
-        model_ser: None,
-        own_backrefs: None,
-    };
-    if opts.plain {
-        let got = th(&tree_hash(&a, cn));
-        vensure!(
-            got == want,
-            "C17:CurriedProgram:to_clvm-tree-hash-differs",
-            "tree_hash(CurriedProgram{{program, args}}.to_clvm()) with {nargs} args = {}, curried program by definition hashes to {}",
-            hx(&got),
-            hx(&want)
-        );
-        // hashes computed by the code under test as inputs
-        let ph2 = tree_hash(&a, pn);
-        let ahs2: Vec<TreeHash> = ans.iter().map(|n| tree_hash(&a, *n)).collect();
-        let got = th(&curry_tree_hash(ph2, &ahs2));
-        vensure!(
-            got == want,
-            "C17:curry_tree_hash:differs-from-actual-curried-program",
-            "curry_tree_hash(tree_hash(p), [tree_hash(a_i)]) = {}, definition gives {}",
-            hx(&got),
-            hx(&want)
-        );
-    }
-    check_all_routines(&a, cn, &want, &opts, "CurriedProgram.to_clvm()")?;
-
-    // 3. the same through the TreeHasher encoder (hashes as leaves)
-    let got = th(&curried(&mut TreeHasher, ph, &ahs));
-    vensure!(
-        got == want,
-        "C17:TreeHasher:curried-program-differs",
-        "CurriedProgram{{hash(p), hashes}} through TreeHasher = {}, definition gives {}",
-        hx(&got),
-        hx(&want)
-    );
-    // 4. the model's curried tree built node by node
-    let (mn, _) = build_inc(&mut a, &t, cur, share, amode, 0, &mut map);
-    let mut c = TreeCache::default();
-    let got = th(&tree_hash_cached(&a, mn, &mut c));
-    vensure!(
-        got == want,
-        "C17:tree_hash_cached:fresh-cache-differs",
-        "tree_hash_cached(curried program built at tree level) = {}, definition gives {}",
-        hx(&got),
-        hx(&want)
-    );
-
-    ctx.label(format!("nargs:{nargs}"));
-    if nargs >= 1 {
-        ctx.nontrivial(Fnv::new().write(&want).finish());
-    }
-    ctx.ran_dry(s.ran_dry());
-    Ok(())
-}
-
-// --------------------------------------------------------------------------
-// sub-check 5: curry_and_treehash (private) observed through fast_forward_singleton
-
-fn singleton_mod() -> &'static (Tree, Tid) {
-    static M: OnceLock<(Tree, Tid)> = OnceLock::new();
-    M.get_or_init(|| {
-        let mut a = Allocator::new();
-        let n = node_from_bytes(&mut a, &SINGLETON_TOP_LAYER_V1_1).expect("singleton mod");
-        let (t, r) = Tree::from_allocator(&a, n, 100_000).expect("singleton mod tree");
-        assert!(mth::tree_hash(&t, r) == SINGLETON_TOP_LAYER_V1_1_HASH, "harness: singleton mod hash");
-        (t, r)
-    })
-}
-
-fn case_ff(bytes: &[u8], ctx: &mut Ctx) -> CaseResult {
-    let mut s = Src::new(bytes);
-    let (mt, mr) = singleton_mod();
-    let mut t = mt.clone();
-    let modr = *mr;
-    let launcher_id: [u8; 32] = s.array();
-    let launcher_ph: [u8; 32] = s.array();
-    let ppci: [u8; 32] = s.array();
-    let np_parent: [u8; 32] = s.array();
-    let odd = |s: &mut Src<'_>| -> u64 {
-        let bits = s.below(64) as u32;
-        (s.u64() >> (63 - bits)) | 1
-    };
-    let parent_amount = odd(&mut s);
-    let amount = odd(&mut s);
-    let np_amount = odd(&mut s);
-    let nc_amount = odd(&mut s);
-    let ib = s.range(1, 30);
-    let inner = gen_tree(&mut s, &mut t, ib);
-    let sb = s.range(1, 8);
-    let inner_solution = gen_tree(&mut s, &mut t, sb);
-    let share = s.below(4) != 1;
-    let amode = s.below(N_ATOM_MODES) as u8;
-
-    // (mod_hash . (launcher_id . launcher_puzzle_hash))
-    let mh = t.atom(&SINGLETON_TOP_LAYER_V1_1_HASH);
-    let li = t.atom(&launcher_id);
-    let lp = t.atom(&launcher_ph);
-    let tail = t.pair(li, lp);
-    let sstruct = t.pair(mh, tail);
-    let puzzle = mth::curry(&mut t, modr, &[sstruct, inner]);
-    let mut hashes = vec![];
-    extend_hashes(&t, &mut hashes);
-    let puzzle_hash = hashes[puzzle as usize];
-    let inner_hash = hashes[inner as usize];
-
-    // from hashes alone, by clvm-utils
-    let got = th(&curry_tree_hash(
-        TreeHash::new(SINGLETON_TOP_LAYER_V1_1_HASH),
-        &[TreeHash::new(hashes[sstruct as usize]), TreeHash::new(inner_hash)],
-    ));
-    vensure!(
-        got == puzzle_hash,
-        "C17:curry_tree_hash:differs-from-actual-curried-program",
-        "curry_tree_hash(singleton mod hash, [struct, inner]) = {}, definition gives {}",
-        hx(&got),
-        hx(&puzzle_hash)
-    );
-
-    // ((parent_parent_coin_info parent_inner_puzzle_hash parent_amount) amount inner_solution)
-    let x1 = t.atom(&ppci);
-    let x2 = t.atom(&inner_hash);
-    let x3 = t.int(u128::from(parent_amount));
-    let proof = t.list(&[x1, x2, x3]);
-    let am = t.int(u128::from(amount));
-    let solution = t.list(&[proof, am, inner_solution]);
-
-    let mut a = Allocator::new();
-    let mut map = vec![];
-    let (pn, _) = build_inc(&mut a, &t, puzzle, share, amode, 0, &mut map);
-    let (sn, _) = build_inc(&mut a, &t, solution, share, amode, 0, &mut map);
-
-    let ph = Bytes32::from(puzzle_hash);
-    // the parent is the same singleton (same struct, same inner puzzle): its puzzle hash is ours
-    let parent_coin = Coin::new(Bytes32::from(ppci), ph, parent_amount);
-    let coin = Coin::new(parent_coin.coin_id(), ph, amount);
-    let new_parent = Coin::new(Bytes32::from(np_parent), ph, np_amount);
-    let new_coin = Coin::new(new_parent.coin_id(), ph, nc_amount);
-
-    let r = fast_forward_singleton(&mut a, pn, sn, &coin, &new_coin, &new_parent);
-    ctx.render(|| {
-        format!(
-            "singleton with launcher id {}, launcher puzzle hash {}, inner puzzle {}, amounts {parent_amount}/{amount}/{np_amount}/{nc_amount}, {} build, atoms {amode} -> {:?}",
-            hx(&launcher_id),
-            hx(&launcher_ph),
-            t.render(inner),
-            if share { "shared" } else { "expanded" },
-            r.as_ref().map(|_| "Ok")
-        )
-    });
-    match r {
-        Ok(_) => {
-            ctx.label("ff:accepted(curry_and_treehash agrees)");
-            let mut f = Fnv::new();
-            f.write(&puzzle_hash).write(&ppci).write_u64(parent_amount);
-            ctx.nontrivial(f.finish());
-        }
-        Err(FfError::ParentCoinMismatch) => vfail!(
-            "C17:curry_and_treehash:differs-from-actual-curried-singleton",
-            "fast_forward_singleton reports ParentCoinMismatch although the parent coin id was computed from the definition's tree hash {} of the curried singleton puzzle: curry_and_treehash computed a different hash",
-            hx(&puzzle_hash)
-        ),
-        Err(e @ (FfError::InnerPuzzleHashMismatch | FfError::PuzzleHashMismatch | FfError::NotSingletonModHash)) => vfail!(
-            "C17:tree_hash:differs-from-definition",
-            "fast_forward_singleton reports {e:?}: its tree_hash of the (inner) puzzle / mod differs from the definition's"
-        ),
-        Err(_) => {
-            // outside C17 (C19 owns fast-forward validity); must stay rare
-            ctx.label("ff:other-error");
-            ctx.discard();
-        }
-    }
-    ctx.ran_dry(s.ran_dry());
-    Ok(())
-}
-
-// --------------------------------------------------------------------------
-
 fn main() {
-    let prop = Property {
-        id: "C17",
-        rule: "cases are CLVM trees (vcore gen_tree; one-sided/patterned chains to 50 000 pairs; lists to 20 000 items; layered DAGs to 400 levels; atoms 0..23, 24, 25, 0x80, `00 05`, empty, ...) built into a clvmr Allocator shared or expanded with atoms via new_atom / new_small_number / new_substr of a heap buffer / new_concat / substr of a small number; histories of 1-8 such trees in one allocator (later trees link nodes of earlier ones) hashed through one TreeCache under block (run_block_generator2), interleaved and free-form schedules with unrelated allocations in between; curried programs with 0-8 arguments; singleton fast-forward scenarios. NON-TRIVIAL = some pair node is reached at least twice in the allocator (memo path), or a small integer 0..23 / the empty atom is stored as a heap buffer, or at least two trees were hashed through one cache, or a curried program has at least one argument; DISTINCT by tree hash x shape x build mode (trees), by the sequence of operations and hashes (histories), by curried hash (curry).",
-        assumptions: &[
-            "reference = vcore::model::treehash (sha2 crate, bottom-up over the arena); it calls nothing under test",
-            "clvmr's node_to_bytes / node_to_bytes_backrefs / Allocator are trusted as the producers of inputs (node_to_bytes is cross-checked against the model's own serialisation whenever it is used)",
-            "clvmr's node_to_bytes_backrefs is super-linear, so it is only used on trees with at most 256 distinct pairs; larger trees get a back-reference serialisation from the harness' own linear serialiser, whose output is cross-checked by decoding it with clvmr and hashing it with clvmr's own ObjectCache/treehash (not clvm-utils)",
-            "a TreeCache is only ever used with the one allocator whose nodes it has seen, and that allocator is never rolled back (as in run_block_generator2)",
-            "plain tree_hash and node_to_bytes are skipped when the expanded tree exceeds 60 000 nodes or 1.9 MB serialised (they are exponential on DAGs by design)",
-            "curry_and_treehash is private: observed through fast_forward_singleton on valid-by-construction scenarios; results other than Ok / ParentCoinMismatch / *HashMismatch are discarded (C19 owns them)",
-        ],
-        death_is_violation: false,
-        subchecks: vec![
-            SubCheck {
-                name: "small-atoms",
-                about: "PRECOMPUTED_HASHES and the small-atom fast path: atoms 0..25 and neighbours in 5 allocator representations x 9 contexts x every routine (exhaustive)",
-                source: Source::Enumerate { f: enum_small, exhaustive: true },
-                run: case_small,
-                inflight: false,
-                min_nontrivial: 120,
-                required_labels: &[
-                    "small<24:inline(U32)",
-                    "small<24:heap(Buffer)",
-                    "empty:inline(U32)",
-                    "empty:heap(Buffer)",
-                    "neighbour:inline(U32)",
-                    "neighbour:heap(Buffer)",
-                ],
-            },
-            SubCheck {
-                name: "trees",
-                about: "one tree, every routine (tree_hash, tree_hash_cached fresh/twice/after visit_tree, from_bytes plain+backrefs, TreeHasher) against the definition",
-                source: Source::Random { len: 2048, quick: 250_000, thorough: 5_000_000 },
-                run: case_tree,
-                inflight: true,
-                min_nontrivial: 100_000,
-                required_labels: &[
-                    "memo-path:pair-reached-twice",
-                    "memo-populated",
-                    "small-atom:heap",
-                    "empty-atom:heap",
-                    "chain>=10000",
-                    "list>=2000",
-                    "dag>60-levels",
-                    "build:expanded",
-                    "backrefs-used",
-                    "own-backrefs-used:pairs>10000",
-                    "clvmr-backrefs-skipped(pairs>256)",
-                    "plain-routines-skipped(expanded>60k)",
-                ],
-            },
-            SubCheck {
-                name: "histories",
-                about: "1-8 trees in one allocator hashed through one shared TreeCache; block/interleaved/free-form schedules, with and without the visit_tree pre-pass, unrelated allocations in between",
-                source: Source::Random { len: 1536, quick: 200_000, thorough: 4_000_000 },
-                run: case_history,
-                inflight: true,
-                min_nontrivial: 100_000,
-                required_labels: &[
-                    "prepass:visit_tree-all-first",
-                    "prepass:none",
-                    "later-tree-links-earlier-pairs",
-                    "memo-hit:cache-already-holds-subtree",
-                    "unrelated-allocations-interleaved",
-                    "same-puzzle-node-again",
-                    "history-len:8",
-                    "style:block",
-                    "style:free-form",
-                ],
-            },
-            SubCheck {
-                name: "curry",
-                about: "curry_tree_hash from hashes alone = definition's hash of the curried program = tree_hash(CurriedProgram.to_clvm()) = TreeHasher, 0-8 args",
-                source: Source::Random { len: 1024, quick: 150_000, thorough: 3_000_000 },
-                run: case_curry,
-                inflight: false,
-                min_nontrivial: 80_000,
-                required_labels: &["nargs:0", "nargs:1", "nargs:8"],
-            },
-            SubCheck {
-                name: "fast-forward-curry",
-                about: "chia-consensus curry_and_treehash (private) through fast_forward_singleton on valid-by-construction singleton spends",
-                source: Source::Random { len: 2048, quick: 30_000, thorough: 600_000 },
-                run: case_ff,
-                inflight: false,
-                min_nontrivial: 20_000,
-                required_labels: &["ff:accepted(curry_and_treehash agrees)"],
-            },
-        ],
-    };
-    engine::main(prop);
+    c17::run_main();
 }
